@@ -514,10 +514,34 @@ theorem shift_equivariance_history (reg : Reg) (c : Int) (st : TState) (hfresh :
   have := run_shift reg c st ops
   rwa [shiftState_fresh c st hfresh] at this
 
-/-- HampelFilter returns exactly the input's index -/
-theorem hampel_index_preserved (cfg : HampelCfg) (z out : Series) (h : hampel cfg z = .ok out) :
+/-- HampelFilter returns exactly the input's index, with either value of `return_bool` -/
+theorem hampel_index_preserved (p : HampelPar) (z out : Series) (h : hampelOut p z = .ok out) :
     labels out = labels z :=
-  hampel_labels cfg z out h
+  hampelOut_labels p z out h
+
+/-- `return_bool=True`: the result carries, at every position, the time point of the filtered series and
+the flag 1 (True) exactly where the filter removed the value (or it was missing), 0 (False) elsewhere -/
+theorem hampel_flags_mark_removed (cfg : HampelCfg) (z r out : Series) (hr : hampel cfg z = .ok r)
+    (ho : hampelOut ⟨cfg, true⟩ z = .ok out) :
+    labels out = labels z ∧ out.length = r.length ∧
+      ∀ (i : Nat) (a b : Int × Val), r[i]? = some a → out[i]? = some b →
+        b.1 = a.1 ∧ (a.2 = none → b.2 = some 1) ∧ (a.2 ≠ none → b.2 = some 0) := by
+  have hout : out = hampelFlags r := by
+    simp only [hampelOut, hr] at ho
+    injection ho with ho
+    rw [← ho]; rfl
+  refine ⟨hampelOut_labels _ z out ho, ?_, ?_⟩
+  · simp [hout, hampelFlags]
+  · intro i a b ha hb
+    rw [hout] at hb
+    simp only [hampelFlags, List.getElem?_map, ha, Option.map_some, Option.some.injEq] at hb
+    subst hb
+    refine ⟨rfl, ?_, ?_⟩
+    · intro h; simp [h]
+    · intro h
+      cases h2 : a.2 with
+      | none => exact absurd h2 h
+      | some x => simp
 
 -- =============================================================================================
 -- 8. a re-fit forgets the object's history (re-used objects: other data, set_params, fit again)
@@ -569,9 +593,15 @@ example : (step polyReg (finalState polyReg (.des witnessDes) [.update (.series 
     (.transform (.series [(0, some 0)]) id)).2 = .ser [(0, some (-1))] := by decide +kernel
 example : (step polyReg (finalState polyReg (.des witnessDes) [.fit (.series [(3, some 5)]) {}])
     (.transform (.series [(0, some 0)]) id)).2 = .ser [(0, some (-1))] := by decide +kernel
-example : (step polyReg (.hampel ⟨3, 3, 1⟩ true)
+example : (step polyReg (.hampel ⟨⟨3, 3, 1⟩, false⟩ true)
     (shiftOp 5 (.transform (.series [(0, some 1), (1, some 90), (2, some 2), (3, some 3), (4, some 4)]) id))).2
     = .ser [(5, some 1), (6, none), (7, some 2), (8, some 3), (9, some 4)] := by decide +kernel
+-- return_bool=True on an index that does not start at 0: the flags sit on the input's time points
+example : (step polyReg (.hampel ⟨⟨3, 3, 1⟩, true⟩ true)
+    (shiftOp 5 (.transform (.series [(0, some 1), (1, some 90), (2, some 2), (3, some 3), (4, some 4)]) id))).2
+    = .ser [(5, some 0), (6, some 1), (7, some 0), (8, some 0), (9, some 0)] := by decide +kernel
+example : hampelOut ⟨⟨3, 3, 1⟩, true⟩ [(5, some 1), (6, some 90), (7, some 2), (8, some 3), (9, some 4)]
+    = .ok [(5, some 0), (6, some 1), (7, some 0), (8, some 0), (9, some 0)] := by decide +kernel
 example : (desTransform witnessDes false (.series [(-3, some 5), (-2, some 5)])).2 = .ser [(-3, some 6), (-2, some 4)] := by
   decide +kernel
 example : Fresh (.det { degree := 1 }) := rfl
